@@ -1105,8 +1105,12 @@ class TransactionEvaluator:
 
     def _eval_Attribute(self, node: ast.Attribute) -> Any:
         """Handle attribute access like field.txn_type, txn.amount, or r.item."""
+        # A loop variable (or := name) called txn / field is that variable: names resolve
+        # scope first, as in _eval_Name - sum(txn.amount for txn in orders) sums the rows
+        scoped = isinstance(node.value, ast.Name) and node.value.id.lower() in self._scope
+
         # Handle txn.name access (explicit transaction context)
-        if isinstance(node.value, ast.Name) and node.value.id.lower() == 'txn':
+        if isinstance(node.value, ast.Name) and node.value.id.lower() == 'txn' and not scoped:
             attr_name = node.attr.lower()
 
             if attr_name == 'description':
@@ -1136,7 +1140,7 @@ class TransactionEvaluator:
                 )
 
         # Handle field.name access (custom CSV fields)
-        if isinstance(node.value, ast.Name) and node.value.id.lower() == 'field':
+        if isinstance(node.value, ast.Name) and node.value.id.lower() == 'field' and not scoped:
             field_name = node.attr.lower()
 
             # Built-in fields
